@@ -1247,17 +1247,20 @@ class PrivKey(PubKey):
 
     def encrypt_keyblob(self, passphrase, enc_alg, hash_alg):
         # PGPy will only ever use iterated and salted S2k mode
-        self.s2k.usage = 254
-        self.s2k.encalg = enc_alg
-        self.s2k.specifier = String2KeyType.Iterated
-        self.s2k.iv = enc_alg.gen_iv()
-        self.s2k.halg = hash_alg
-        self.s2k.salt = bytearray(os.urandom(8))
-        self.s2k.count = hash_alg.tuned_count
+        # the new String-to-Key specifier is built on the side and only installed once the secret key material
+        # has been encrypted: if enc_alg is refused (or anything else fails) this key must stay as it was
+        s2k = String2Key()
+        s2k.usage = 254
+        s2k.encalg = enc_alg
+        s2k.specifier = String2KeyType.Iterated
+        s2k.iv = enc_alg.gen_iv()
+        s2k.halg = hash_alg
+        s2k.salt = bytearray(os.urandom(8))
+        s2k.count = hash_alg.tuned_count
 
         # now that String-to-Key is ready to go, derive sessionkey from passphrase
         # and then unreference passphrase
-        sessionkey = self.s2k.derive_key(passphrase)
+        sessionkey = s2k.derive_key(passphrase)
         del passphrase
 
         pt = bytearray()
@@ -1268,7 +1271,11 @@ class PrivKey(PubKey):
         pt += hashlib.new('sha1', pt).digest()
 
         # encrypt
-        self.encbytes = bytearray(_encrypt(bytes(pt), bytes(sessionkey), enc_alg, bytes(self.s2k.iv)))
+        encbytes = bytearray(_encrypt(bytes(pt), bytes(sessionkey), enc_alg, bytes(s2k.iv)))
+
+        # nothing was refused: the key is now protected
+        self.s2k = s2k
+        self.encbytes = encbytes
 
         # delete pt and clear self
         del pt
